@@ -16,6 +16,7 @@
    decided by the measurement ladder (a search on the implementation). -/
 import HtpModel.Lemmas.Cost
 import HtpModel.Lemmas.Segment
+import HtpModel.Lemmas.DriverFuel
 
 namespace Htp.C08
 open Htp Htp.Table Htp.Ring
@@ -91,5 +92,19 @@ theorem C08_reqline_iterations (cfg : Cfg) (c : Conn.Conn) (hs : c.inn.Sane) (hs
 
 /-- non-vacuity and scale: three different names cost 0 + 1 + 2 comparisons -/
 example : (insertNames (Table.create 2) [(b!"Host"), (b!"Accept"), (b!"X-a")]).2 = 3 := by decide
+
+/-- **C08 (the loop of a request data call makes a linear number of passes)**: from any state that satisfies the between-calls invariant (`HistInv`:
+    it holds for the fresh parser and after every call history, `C09_history_invariant`), with any chunk of data and any callback policy, the
+    `for (;;)` of htp_connp_req_data makes at most 8 * len + 8 passes: a potential `8 * (unread bytes) + rank of the state` strictly decreases with
+    every pass that continues (one lemma per state function: an OK answer advanced the read cursor or moved to a later state;
+    `Lemmas/DriverFuel.lean`). In particular the model's own fuel 8 * len + 64 is never used up (`OutOfFuel` is false), and more fuel changes
+    nothing. The attempt to prove this is what found S45: before the repair REQ_IDLE ignored the answer of the REQUEST_START callback, so a
+    refusing callback made the loop create one transaction after the other on the same byte - without end if it always refuses. -/
+theorem C08_req_driver_passes_linear (cfg : Cfg) (d : Bytes) (c : Conn.Conn) (hs : (d.length : Int) < 18446744073709551616)
+    (h : Conn.HistInv cfg c) (n : Nat) (hn : 8 * d.length + 8 < n) :
+    ¬ Conn.OutOfFuel cfg n (Conn.reqWakeOther (Conn.reqStoreChunk (some d) d.length c)) ∧
+    ∀ k, Conn.reqDriverLoop cfg false (8 * d.length + 64 + k) (Conn.reqWakeOther (Conn.reqStoreChunk (some d) d.length c)) =
+         Conn.reqDriverLoop cfg false (8 * d.length + 64) (Conn.reqWakeOther (Conn.reqStoreChunk (some d) d.length c)) :=
+  ⟨Conn.reqData_passes_linear cfg d c hs h.2.2.1 h.clOK n hn, (Conn.reqData_fuel_enough_hist cfg d c hs h).2⟩
 
 end Htp.C08
